@@ -31,6 +31,7 @@ SEEDS = [
     'ver:"2.0"\na\n1\n\nver:"2.0"\nb\n2\n',
     'ver:"3.0" l:[1]\na m:{k:1}\nR\n',
     'ver:"2.0"\na\nINF\nNaN\n-INF\nM\nF\n',
+    'ver:"3.0"\na\n<<ver:"3.0" m:[1]\nx c:{k:M}\n[1]\n>>\n',
 ]
 ALPHA_FULL = list('"\\`\',:;()[]{}<>@\n\r 0aA_-.TNe$%#&*') + ['\x00', u'é']
 ALPHA_QUICK = list('"\\`,:()[]{}<>\n 0aN%') + [u'é']
@@ -77,7 +78,9 @@ def definitely_broken(piece):
         return None
     i, n = mo.end(), len(piece)
     stack = []
+    vstack = [v3]            # a nested grid carries its own version header: its content is gated by THAT version
     while i < n:
+        v3 = vstack[-1]
         c = piece[i]
         if c in '"`':
             q = c
@@ -123,11 +126,20 @@ def definitely_broken(piece):
                 return 'nested grid under a pre-3.0 version'
             stack.append('<<')
             i += 2
+            nv = NESTED_HDR.match(piece, i)
+            inner = True
+            if nv:
+                try:
+                    inner = tuple(int(x or 0) for x in nv.group(1).split('.')) >= (3,)
+                except ValueError:
+                    inner = True
+            vstack.append(inner)
             continue
         elif piece.startswith('>>', i):
             if not stack or stack[-1] != '<<':
                 return 'unbalanced >>'
             stack.pop()
+            vstack.pop()
             i += 2
             continue
         i += 1
@@ -145,6 +157,7 @@ def definitely_broken(piece):
     return None
 
 
+NESTED_HDR = re.compile(r'ver:"(\d[\d.]*)"')
 COLNAME = re.compile(r'[a-z][a-zA-Z0-9_]*(?= |$)')
 
 
@@ -414,6 +427,33 @@ def env_and_semantic(st):
             text = 'ver:"%s"\na,b\n1,%s\n' % (ver, s)
             judge_document(hs, text, st, 'semantic:cell', {'kind': 'doc', 'text': text})
             st.case(('semantic', ver, s), outcome=('semantic',))
+    # every escape form of the two quoted literals reaches the unescaping parse action: alone, as list element, as dict value
+    for e in ['\\b', '\\f', '\\n', '\\r', '\\t', '\\"', '\\\\', '\\$', '\\u00e9', '\\u00E9', '\\u0000', '\\uffff', '\\ud800']:
+        for ver in ('2.0', '3.0'):
+            judge_scalar(hs, '"x%sy"' % e, ver, st, 'escape:str')
+        judge_scalar(hs, '["x%sy"]' % e, '3.0', st, 'escape:str-in-list')
+        judge_scalar(hs, '{k:"%s"}' % e, '3.0', st, 'escape:str-in-dict')
+    for c in ':/?[]@&=;`\\' + 'bfnrt"$,!*+ ':      # not '#': hszinc keeps that escape's backslash on purpose (not pinned)
+        e = '\\' + c
+        for ver in ('2.0', '3.0'):
+            judge_scalar(hs, '`x%sy`' % e, ver, st, 'escape:uri')
+        judge_scalar(hs, '[`%s`]' % e, '3.0', st, 'escape:uri-in-list')
+        judge_scalar(hs, '{k:`x%s`}' % e, '3.0', st, 'escape:uri-in-dict')
+        text = 'ver:"2.0" u:`%s`\na\n`a%sb`\n' % (e, e)
+        judge_document(hs, text, st, 'escape:uri', {'kind': 'doc', 'text': text})
+    # 3.0-only constructs inside a nested grid whose OWN header declares a pre-3.0 version (the enclosing document is 3.0)
+    for nver in ('2.0', '1.0', '2.0.0'):
+        for kind, lit in (('list', '[1]'), ('dict', '{k:1}'), ('na', 'NA'), ('xstr', 'hex("ff")'), ('grid', '<<ver:"3.0"\nq\n1\n>>')):
+            for pos, text in (('cell', 'ver:"3.0"\na\n<<ver:"%s"\nx\n%s\n>>\n' % (nver, lit)),
+                              ('grid-meta', 'ver:"3.0"\na\n<<ver:"%s" m:%s\nx\n1\n>>\n' % (nver, lit)),
+                              ('col-meta', 'ver:"3.0"\na\n<<ver:"%s"\nx c:%s\n1\n>>\n' % (nver, lit)),
+                              ('second-row', 'ver:"3.0"\na,b\n1,2\n<<ver:"%s"\nx,y\n1,2\n3,%s\n>>,N\n' % (nver, lit))):
+                case = {'kind': 'doc', 'text': text, 'expect': 'rejected'}
+                out = judge_document(hs, text, st, 'nested-version:' + pos, case)
+                st.case(('nested-version', nver, kind, pos), outcome=('nested-version', out))
+                if out in ('accepted', 'lenient-accept'):
+                    st.fail('3.0-only-construct-accepted-under-pre-3.0-nested-version', {'origin': 'nested-version:' + pos, 'kind': kind, 'nested_ver': nver},
+                            case, {'document': text})
     docs = ['ver:"2.0"\na\n"unterminated\n', u'ver:"2.0"\na\n"é",\x01\n', 'nonsense', u'ver:"2.0" m:"é"\na\n@@\n', 'ver:"3.0"\na\n[1,\n', u'vér:"2.0"\na\n1\n',
             'ver:"2.0"\na\n2020-13-01\n', u'ver:"2.0"\na\n"é" "é"\n']
     scal = [u'"é', u'é', '2020-13-01', '[1,', u'@é é']
@@ -514,4 +554,6 @@ def replay(case, st):
         finally:
             sys.stdout = saved
     else:
-        judge_document(hs, case['text'], st, 'replay', case)
+        out = judge_document(hs, case['text'], st, 'replay', case)
+        if case.get('expect') == 'rejected' and out in ('accepted', 'lenient-accept'):
+            st.fail('3.0-only-construct-accepted-under-pre-3.0-nested-version', {'origin': 'replay'}, case, {'document': case['text']})
